@@ -114,7 +114,9 @@ fn build(max_bits: u64) -> Vec<Vec<Witness>> {
                         (norm(&s.1, &s.2, sh), e, s)
                     })
                     .collect();
-                v.sort_by(|a, b| a.0.partial_cmp(&b.0).unwrap().then(a.1.cmp(&b.1)));
+                // total order (ties broken on the state itself): the table must not depend on the hash
+                // set's iteration order, which differs from process to process
+                v.sort_by(|a, b| a.0.partial_cmp(&b.0).unwrap().then(a.1.cmp(&b.1)).then_with(|| a.2.cmp(&b.2)));
                 v.truncate(BEAM);
                 for x in v.iter() {
                     smallest = smallest.min(x.1);
